@@ -24,6 +24,7 @@ import PoetryVerif.Proofs.VRangeOps
 import PoetryVerif.Proofs.MarkerProj
 import PoetryVerif.Proofs.PyConvFullLists
 import PoetryVerif.Proofs.PyConvNestedBoundary
+import PoetryVerif.Proofs.PyConvNamed
 import PoetryVerif.Proofs.PyConvWildNe
 
 set_option linter.unusedSimpArgs false
@@ -501,5 +502,23 @@ example : nestedDomain (.single (.rng ⟨some (finalV [3, 8]), some (finalV [3, 
     nestedDomain (.single (.rng ⟨some (finalV [3]), none, true, false⟩)) = false ∧
     PyDomVC (.single (.rng ⟨some (finalV [3]), none, true, false⟩)) = true := by
   refine ⟨by decide, by decide, by decide, by decide⟩
+
+/-- **`<X.Y || >X.Y` is not `python_version != "X.Y"`** (what a shortcut for meeting ranges must not emit): the text
+printed is `(python_version < "X.Y") or (python_full_version > "X.Y.0")`, and the marker read back excludes `X.Y.0`
+only — false on `X.Y.0`, true on `X.Y.1` — whereas `python_version != "X.Y"` is false on `X.Y.1` as well. -/
+theorem createNested_ne_two_component (X Y : Nat) :
+    createNestedMarker "python_version" (meetingVC X Y) = .ok (meetingText X Y) ∧
+    meetingText X Y ≠ "python_version != \"" ++ relText [X, Y] ++ "\"" ∧
+    (∀ (E : Env) (m : M), parseMarker (meetingText X Y) = .ok m →
+      (EnvPy E X Y 0 → M.validate E m = .ok false) ∧ (EnvPy E X Y 1 → M.validate E m = .ok true)) ∧
+    (∀ E : Env, EnvPy E X Y 1 → evalItem "python_version" "!=" (relText [X, Y]) false E = some false) := by
+  refine ⟨createNested_meetingText X Y, meetingText_ne X Y _ (by simp [String.toList_append]), ?_, ?_⟩
+  · intro E m hm
+    exact ⟨fun hE => by rw [meeting_validate hE m hm]; rfl, fun hE => by rw [meeting_validate hE m hm]; rfl⟩
+  · intro E hE
+    rw [evalItem_py_ne E _ [X, Y] [X, Y] (Or.inl rfl) (by simp) (by simp) hE.1]
+    simp [compare_self_eq]
+
+example : meetingText 3 11 = "(python_version < \"3.11\") or (python_full_version > \"3.11.0\")" := by decide
 
 end Poetry.C11
